@@ -75,6 +75,7 @@ def request_sweep(job):
                 if canon(snap(c2)) != canon(before):
                     raise RuntimeError("clone differs from original")
                 cnt("sweep.requests")
+                out["evaluations"] += 1  # one evaluation = one request tried on one state
                 try:
                     c2.request_workflow_status(req)
                     cnt("sweep.accepted")
@@ -153,7 +154,6 @@ def request_sweep(job):
 
         explore.run_free(run, explore.Policy(pseed=h64(seed, "p"), lazy_pct=50), hook=hook)
         sweep(run, "after_done")
-        out["evaluations"] += 1
         cnt("histories")
         for v in viols:
             v["workload"] = job.get("name")
